@@ -230,28 +230,39 @@ pub fn c09() -> i32 {
         // divergence right after a one-way loss burst (the confirmed frame jumps over several
         // reporting frames in one call when the burst ends)
         let mut scns = Vec::new();
-        for iv in [1u32, 2, 3] {
-            for len in [3, 5, 8, 12] {
-                for off in -2..=(if t { 8 } else { 5 }) {
-                    for dir in 0..2 {
-                        for w in [8usize, 3] {
-                            if !t && (w == 3 && len > 5 || off % 2 != 0 && iv == 3) {
-                                continue;
+        // the burst starts at round 20, or at the very start of the session (rounds 0..2): then
+        // the first report of one side is due only after its confirmed frame has jumped
+        for start in [20, 0, 1, 2] {
+            for iv in [1u32, 2, 3, 4] {
+                for len in [3, 5, 8, 12] {
+                    for off in -2..=(if t { 8 } else { 5 }) {
+                        for dir in 0..2 {
+                            for w in [8usize, 3] {
+                                if !t && (w == 3 && len > 5 || off % 2 != 0 && iv >= 3) {
+                                    continue;
+                                }
+                                if start != 20 && !t && off > 2 {
+                                    continue;
+                                }
+                                if iv == 4 && start == 20 && !t {
+                                    continue;
+                                }
+                                let mut s = base_scn("c09-detect-after-burst", "1+1", w, 0, false, Pred::RepeatLast, Program::Changing, 1);
+                                for p in s.peers.iter_mut() {
+                                    p.desync = iv;
+                                }
+                                let (a, b) = (s.peers[0].addr, s.peers[1].addr);
+                                let (from, to) = if dir == 0 { (b, a) } else { (a, b) };
+                                s.outages.push(Outage { from, to, start, len, classes: CLASS_ALL });
+                                // right after the burst, or (bursts at the start) a good while later
+                                let g = if start != 20 && off > 0 { 40 + off } else { (start + len + off).max(0) };
+                                s.diverge = Some((1, g));
+                                s.name = format!("{} interval={iv} burst start={start} len={len} dir={dir} node 1 diverges from frame {g}", s.name);
+                                s.horizon = start + len + 2;
+                                s.probe = g + 4 * iv as i32 + 2 * w as i32 + 60;
+                                s.checks = CK_C02 | CK_C03 | CK_C04;
+                                scns.push(s);
                             }
-                            let mut s = base_scn("c09-detect-after-burst", "1+1", w, 0, false, Pred::RepeatLast, Program::Changing, 1);
-                            for p in s.peers.iter_mut() {
-                                p.desync = iv;
-                            }
-                            let (a, b) = (s.peers[0].addr, s.peers[1].addr);
-                            let (from, to) = if dir == 0 { (b, a) } else { (a, b) };
-                            s.outages.push(Outage { from, to, start: 20, len, classes: CLASS_ALL });
-                            let g = 20 + len + off;
-                            s.diverge = Some((1, g));
-                            s.name = format!("{} interval={iv} burst len={len} dir={dir} node 1 diverges from frame {g}", s.name);
-                            s.horizon = 20 + len + 2;
-                            s.probe = g + 4 * iv as i32 + 2 * w as i32 + 60;
-                            s.checks = CK_C02 | CK_C03 | CK_C04;
-                            scns.push(s);
                         }
                     }
                 }
@@ -260,7 +271,7 @@ pub fn c09() -> i32 {
         let n = scns.len();
         let cfg = ExploreCfg { k: Some(0), wall: Duration::from_secs(if t { 900 } else { 40 }), ..Default::default() };
         let out = explore(&scns, &cfg, &judge);
-        rep.absorb("detection half: divergence right after a one-way loss burst, intervals 1..3", out, &props, json!({"k": 0, "scenarios": n}));
+        rep.absorb("detection half: divergence right after (or well after) a one-way loss burst in the middle or at the very start of the session, intervals 1..4", out, &props, json!({"k": 0, "scenarios": n}));
         // with one deviation
         let mut scns = Vec::new();
         for iv in [1u32, 4] {
